@@ -733,7 +733,9 @@ def rule_cauchy_wiring(rep: Report, repo: Repo):
         b = bind_args(pbo, c)
         if b is None:
             raise AnalysisError(RC, f"cannot bind `{norm(c)[:80]}`")
-        got = {k: norm(resolved(v, {kk: vv for kk, vv in ret_vals[0].env.items() if kk in ("first", "second")})) for k, v in b.items()}
+        # the two factors, whatever the locals that hold them are called: locals that resolve to an element of `series`
+        fenv = {kk: vv for kk, vv in ret_vals[0].env.items() if isinstance(vv, ast.Subscript) and norm(vv.value) == "series"}
+        got = {k: norm(resolved(v, fenv)) for k, v in b.items()}
         want = {"index": "index", "first": "series[0]", "second": "series[1]", "hermitian": "hermitian"}
         ok = all(got.get(k) == v for k, v in want.items()) and got.get("operator") in ("operator", f"{dflt} if operator is None else operator")
         rep.check(ok, RC, "series::cauchy_dot_product eval forwards (index, first, second, operator, hermitian)", str(got), loc(c))
